@@ -110,7 +110,7 @@ def agg_field(fn, src):
     rv = d[2]["rv"]
     ops = rv["ops"]
     i = fields[0]["f"]
-    if rv.get("agg") not in ("tuple", "adt") or i >= len(ops):
+    if rv.get("agg") not in ("tuple", "adt", "closure") or i >= len(ops):
         return None
     o = ops[i]
     if o.get("k") in ("copy", "move") and not o["p"]:
